@@ -116,7 +116,7 @@ pub struct SqlAux {
     pub dev: Dev,
 }
 
-pub fn scenario_for(aux: &SqlAux, sim: &SimConfig) -> (Scenario, usize) {
+pub fn scenario_for(aux: &SqlAux, sim: &SimConfig, entropy: u64) -> (Scenario, usize) {
     let mut stmts = aux.knobs.set_stmts();
     stmts.extend(setup_sql(&aux.tables, aux.chunk).into_iter().map(Stmt::new));
     for (name, q) in &aux.views {
@@ -126,6 +126,7 @@ pub fn scenario_for(aux: &SqlAux, sim: &SimConfig) -> (Scenario, usize) {
     stmts.push(Stmt::new(print::query(&aux.query)));
     let mut sc = Scenario::single(stmts);
     sc.sim = sim.clone();
+    sc.entropy = entropy;
     (sc, idx)
 }
 
@@ -148,7 +149,7 @@ pub fn shrink_model_violation(v: &Violation) -> Vec<Violation> {
     let mut push = |aux2: SqlAux| {
         let db = db_of_aux(&aux2);
         if let ModelSays::Expect(e, _) = model_expect(&db, &aux2.query, &aux2.dev) {
-            let (sc, idx) = scenario_for(&aux2, &v.scenario.sim);
+            let (sc, idx) = scenario_for(&aux2, &v.scenario.sim, v.scenario.entropy);
             let mut c = v.clone();
             c.scenario = sc;
             c.stmt = idx;
